@@ -140,7 +140,7 @@ def run(ctx):
     # ---- leg G input: every emitted tree, in both tiers
     allc = decode_cases(cases)
     total = len(allc)
-    ctx.cov["legs"]["MCRedirects" + tier]["trees_with_two_annotated_functions_in_a_file"] = sum(1 for c in allc if n_annotated(c))
+    ctx.cov["legs"]["MCRedirects" + tier]["trees_with_two_annotated_declarations_in_a_file"] = sum(1 for c in allc if n_annotated(c))
     runs, children = (2, 1) if q else (20, 2)
     if not q:
         # 20 in-process builds where an order can show (two or more annotations in the tree), 3 elsewhere
